@@ -84,6 +84,8 @@ CHECKS = {
             {"harnesses": [H + "ZZH3RoundTrip"], "quick": {"budget": 2, "atoms": 1, "funcs": 1, "calleeleaves": 1}, "thorough": {"budget": 3, "atoms": 1, "funcs": 0, "calleeleaves": 1}},
             # followed by a second, indented statement (layout state must not leak out of the first)
             {"harnesses": [H + "ZZH3RoundTrip"], "quick": {"budget": 2, "atoms": 1, "funcs": 1, "follow": 1}, "thorough": {"budget": 2, "atoms": 2, "funcs": 1, "follow": 1}},
+            # a bare block statement follows (pretty printing without semicolons must keep the two statements apart)
+            {"harnesses": [H + "ZZH3RoundTrip"], "quick": {"budget": 2, "atoms": 1, "funcs": 1, "follow": 2}, "thorough": {"budget": 2, "atoms": 2, "funcs": 1, "follow": 2}},
         ],
     },
     "C06": {
@@ -105,6 +107,8 @@ CHECKS = {
             {"harnesses": [H + "ZZH6Pretty"], "flags": VLQ_REDIRECT, "quick": {"budget": 2, "stmts": 1, "palette": 12, "palettemask": 1, "maxlist": 1, "nofunc": 1, "exprmask": 1, "trivia": 0, "indents": 1}, "thorough": {"budget": 3, "stmts": 1, "palette": 12, "palettemask": 1, "maxlist": 1, "nofunc": 1, "exprmask": 1, "trivia": 0, "indents": 1}},
             # if / else, while and blocks with comments on any token (also on `else` after a brace-less branch)
             {"harnesses": [H + "ZZH6Pretty"], "flags": VLQ_REDIRECT, "quick": {"budget": 2, "stmts": 1, "trivia": 1, "triviakinds": 5, "stmtmask": 44, "exprmask": 1024, "nofunc": 1, "indents": 1, "atoms": 1, "maxlist": 1}, "thorough": {"budget": 2, "stmts": 2, "trivia": 1, "triviakinds": 5, "stmtmask": 44, "exprmask": 1024, "nofunc": 1, "indents": 1, "atoms": 1, "maxlist": 1}},
+            # text level: compact and pretty printers emit the same text for every string literal (escapes, line continuations)
+            {"harnesses": [H + "ZZH6Literals"], "quick": {"K": 3}, "thorough": {"K": 4}},
         ],
     },
     "C07": {
